@@ -10,7 +10,7 @@ import (
 func init() {
 	register(&Check{
 		ID: "C01", Level: "exploration",
-		NCases: func(t string) int { return tier(t, 400, 10000) },
+		NCases: func(t string) int { return tier(t, 400, 8000) },
 		Run:    runC01,
 		Rule: "case = (storage configuration, seeded history of Put/PutWithTimestamp/Delete write transactions over 2-3 buckets with reopen points) run against the real DB and the ordered-map-with-TTL model; " +
 			"every Get/GetAll/RangeScan/PrefixScan/PrefixSearchScan result is compared; 1 case in 16 is a large-geometry history (segments of 9-330 KB, >1000 live keys or values of 1-69 KB), 1 in 100 a real-time TTL scenario (expiry by the wall clock across another handle's Close, a Merge, a reopen); non-trivial = history had >=2 segment rotations, >=1 tombstone and >=1 expired key inside a compared scan; distinct = distinct hash of configuration+operation sequence",
